@@ -561,6 +561,7 @@ func (c *ExprCtx) indexExpr(base TV, ix CExpr) TV {
 		for i, lf := range ls {
 			vk := "mv:" + typeKey(base.Typ) + lf.path
 			arr := e.get(c.st, vk, arrSort(SInt, arrSort(SInt, lf.sort)))
+			e.markRefKey(vk, lf)
 			// Go semantics: a missing key yields the zero value
 			ts[i] = Ite(present, Select(Select(arr, ref), kt), zs[i])
 		}
@@ -935,6 +936,23 @@ func (c *ExprCtx) call(x CCall) TV {
 			e.declFloat()
 			name := e.s.DeclareFun(fmt.Sprintf("fconst:%v", float64(v.Int64())), nil, SF)
 			return TV{V: T{name, SF}}
+		case "has":
+			// has(m, k): the map m has an entry for key k
+			base := c.expr(x.Args[0])
+			mt, ok := under(base.Typ).(*types.Map)
+			if !ok {
+				c.fail("has(m, k): m is not a map")
+			}
+			kt, ok := e.mapKeyTerm(c.expr(x.Args[1]).V, mt.Key())
+			if !ok {
+				c.fail("map with non-scalar key in contract")
+			}
+			ref := e.scalar(base.V)
+			dom := e.get(c.st, "md:"+typeKey(base.Typ), arrSort(SInt, arrSort(SInt, SBool)))
+			return TV{V: Select(Select(dom, ref), kt), Typ: types.Typ[types.Bool]}
+		case "feq":
+			// Go's == on floats (IEEE equality; an uninterpreted relation like the other float ops)
+			return TV{V: e.floatOp("feq", SBool, c.floatExpr(x.Args[0]), c.floatExpr(x.Args[1])), Typ: types.Typ[types.Bool]}
 		case "fle":
 			return TV{V: e.floatOp("fle", SBool, c.floatExpr(x.Args[0]), c.floatExpr(x.Args[1])), Typ: types.Typ[types.Bool]}
 		case "flt":
